@@ -190,7 +190,7 @@ def run_spec(arg):
         out["result"] = "inconclusive"
         out["why"] = "vacuous: no (path, reference case) pair is satisfiable"
     if out["result"] == "holds":
-        U.validate_native(E, paths, lv, conc, out)
+        U.validate_native(E, paths, lv, conc, out, big=g.get("big_ints", True))
     return out
 
 
